@@ -83,7 +83,9 @@ func r6KeysThatFoldTogetherAcrossElements(c *Ctx) {
 // both, in both orders, and inside a filter whose elements alternate (the operation parsed for the first document is kept by the
 // runner and asked again on the second)
 func r6NilThenSetStructPointers(c *Ctx) {
-	owner := func(name string) *TV { return tvPtr(tvStruct([][3]any{{"Name", 1, tvStr(name)}, {"Age", 1, tvInt("int", "4")}})) }
+	owner := func(name string) *TV {
+		return tvPtr(tvStruct([][3]any{{"Name", 1, tvStr(name)}, {"Age", 1, tvInt("int", "4")}}))
+	}
 	noOwner := tvNilPtr(tvStruct([][3]any{{"Name", 1, tvStr("")}, {"Age", 1, tvInt("int", "0")}}))
 	item := func(id string, o *TV) *TV { return tvStruct([][3]any{{"ID", 1, tvStr(id)}, {"Owner", 1, o}}) }
 	with, without := item("a", owner("ann")), item("b", noOwner)
